@@ -13,7 +13,7 @@ from p11client import Exec, Died, Hang, mkconf
 import tsanlog
 
 SO, USER = b'so-pin-18', b'user-pin-18'
-WORKLOADS = ['session-objects', 'token-writers', 'session-churn', 'login-churn', 'crypto']
+WORKLOADS = ['session-objects', 'token-writers', 'session-churn', 'login-churn', 'crypto', 'destroy-race', 'first-find']
 
 def setup(paths, ck, cfg, d, locking, seed, yield_p=0.2, yield_us=120, pre=None):
     mkconf(d, 'file'); env = dict(SAN_ENV)
@@ -23,7 +23,7 @@ def setup(paths, ck, cfg, d, locking, seed, yield_p=0.2, yield_us=120, pre=None)
     if locking == 'cb': init['yield'] = {'seed': seed, 'p': yield_p, 'maxus': yield_us}
     for prelock in (pre or ()):       # earlier initialisations of the same process with another locking mode: the mode of the LAST C_Initialize must be in effect
         assert x.call('C_Initialize', locking=prelock)['rv'] == 0; assert x.call('C_Finalize')['rv'] == 0
-    assert x.call('C_Initialize', **init)['rv'] == 0
+    assert x.call('C_Initialize', **init)['rv'] == 0; x.init_args = init
     slot = x.call('C_GetSlotList', count=8)['slots'][-1]
     assert x.call('C_InitToken', slot=slot, pin=SO.hex(), label=b'tok18'.hex())['rv'] == 0
     s0 = x.call('C_OpenSession', slot=slot)['h']
@@ -39,13 +39,26 @@ def _strings(v):
     elif isinstance(v, list):
         for q in v: yield from _strings(q)
 
-def gen_script(ck, x, slot, tid, rnd, n_iter, wl):
+def gen_script(ck, x, slot, tid, rnd, n_iter, wl, race_handles=()):
     S = []; E = []
     def add(req, chk=None, dep=None):
         if dep is None:      # a step depends on every earlier step of this thread whose result it references
             refs = [int(v[1:].split('.')[0]) for v in _strings(req) if v.startswith('$')]; dep = [r for r in refs if r != 0]
         S.append(req); E.append((chk, dep) if chk is not None else None); return len(S) - 1
     so = add({'fn': 'C_OpenSession', 'slot': slot}, ('ok',)); sref = '$%d.h' % so
+    if wl == 'destroy-race':
+        order = list(race_handles)
+        if tid % 2: order.reverse()
+        for (lab, h) in order:
+            add({'fn': 'C_GetSessionInfo', 's': sref}, None)
+            add({'fn': 'C_DestroyObject', 's': sref, 'o': h}, ('race-destroy', lab))
+        add({'fn': 'C_CloseSession', 's': sref}, ('ok',)); return S, E
+    if wl == 'first-find':       # objects that have NO handle yet (the library was re-initialised after they were stored): all threads look them up for the first time at once
+        # one search over everything: C_FindObjectsInit registers a handle for every object in one call, in the same order in every thread
+        add({'fn': 'C_FindObjectsInit', 's': sref, 'tmpl': []}, ('ok',)); add({'fn': 'C_FindObjects', 's': sref, 'max': 500}, ('first-findall', len(race_handles) + 1)); add({'fn': 'C_FindObjectsFinal', 's': sref}, ('ok',))
+        for (lab, _) in race_handles:
+            add({'fn': 'C_FindObjectsInit', 's': sref, 'tmpl': x.T({'CKA_LABEL': lab.encode()})}, ('ok',)); add({'fn': 'C_FindObjects', 's': sref, 'max': 8}, ('first-find', lab)); add({'fn': 'C_FindObjectsFinal', 's': sref}, ('ok',))
+        add({'fn': 'C_CloseSession', 's': sref}, ('ok',)); return S, E
     for it in range(n_iter):
         if wl == 'session-churn':
             o2 = add({'fn': 'C_OpenSession', 'slot': slot, 'flags': 4 | (2 if rnd.random() < 0.5 else 0)}, ('ok',)); s2 = '$%d.h' % o2
@@ -89,7 +102,7 @@ def gen_script(ck, x, slot, tid, rnd, n_iter, wl):
 
 def judge_threads(ck, wl, scripts, exps, results, V):
     """V(key, what, detail).  Returns (calls, created{label:(handle,on_token)}, destroyed set)"""
-    handles = {}; created = {}; destroyed = set(); calls = 0
+    handles = {}; created = {}; destroyed = set(); calls = 0; shared_handles = {}; race = {}; first = {}; first_n = [0]
     lc = wl == 'login-churn'
     for t, (res, E) in enumerate(zip(results, exps)):
         for i, (st, chk) in enumerate(zip(res, E)):
@@ -107,6 +120,7 @@ def judge_threads(ck, wl, scripts, exps, results, V):
                 if st['rv'] != 0: V(f'{fn}|{wl}|{rvn}', 'object creation failed although no sequential order lets it fail', {'thread': t, 'step': i, 'label': chk[1].decode()})
                 else: created[chk[1]] = (st['h'], chk[2]); handles.setdefault(st['h'], []).append(('object', chk[1].decode()))
             elif k == 'find-count':
+                if st['rv'] == 0 and chk[1] == b'SHARED' and st.get('objs'): shared_handles.setdefault(st['objs'][0], []).append(t)
                 if st['rv'] != 0: V(f'{fn}|{wl}|{rvn}', 'C_FindObjects failed', {'thread': t, 'step': i})
                 elif st['n'] != chk[2]:
                     created_ok = all(res[j]['rv'] == 0 for j in range(max(0, i - 3), i) if scripts[t][j]['fn'] == 'C_CreateObject')
@@ -130,8 +144,26 @@ def judge_threads(ck, wl, scripts, exps, results, V):
             elif k in ('state-user', 'state-public'):
                 want = (1, 3) if k == 'state-user' else (0, 2)
                 if st['rv'] != 0 or st.get('state') not in want: V(f'{fn}|{wl}|wrong-state', 'session state inconsistent with the login history', {'got': st.get('state'), 'want': want})
+            elif k == 'race-destroy':
+                race.setdefault(chk[1], []).append((t, rvn))
+            elif k == 'first-findall':
+                if st['rv'] != 0 or st.get('n') != chk[1]: V(f'C_FindObjects|{wl}|found-{st.get("n")}-instead-of-{chk[1]}', 'a search over all stored token objects returned the wrong number of objects', {'thread': t})
+                else: first.setdefault('*all*', set()).update(st['objs']); first_n[0] = chk[1]
+            elif k == 'first-find':
+                if st['rv'] != 0 or st.get('n') != 1: V(f'C_FindObjects|{wl}|found-{st.get("n")}-instead-of-1', 'a stored token object was not found exactly once', {'thread': t, 'label': chk[1]})
+                else: first.setdefault(chk[1], set()).add(st['objs'][0])
     for h, l in handles.items():
         if len(l) > 1: V(f'handle-issued-twice|{wl}', 'the same handle value was returned for two different things', {'handle': h, 'uses': l})
+    if len(shared_handles) > 1:
+        V(f'one-object-several-live-handles|{wl}', 'concurrent searches returned different live handles for the same token object (executed one at a time, every search returns the one registered handle)', {'handles': {str(k): sorted(set(v)) for k, v in shared_handles.items()}})
+    if '*all*' in first:
+        hs = first.pop('*all*')
+        if len(hs) > first_n[0]: V(f'one-object-several-live-handles|{wl}', 'concurrent first searches returned different live handles for the same token object (executed one at a time, every search returns the one registered handle)', {'objects': first_n[0], 'distinct_handles_over_all_threads': len(hs)})
+    for lab, hs in first.items():
+        if len(hs) > 1: V(f'one-object-several-live-handles|{wl}', 'concurrent first searches returned different live handles for the same token object (executed one at a time, every search returns the one registered handle)', {'label': lab, 'handles': sorted(hs)})
+    for obj, l in race.items():
+        oks = [x for x in l if x[1] == 'CKR_OK']
+        if len(oks) != 1: V(f'C_DestroyObject|{wl}|same-object-destroyed-{len(oks)}-times', 'several threads destroyed the same object and not exactly one of them succeeded', {'object': obj, 'results': l})
     return calls, created, destroyed
 
 def stress_job(job):
@@ -155,8 +187,19 @@ def stress_job(job):
     x = None
     try:
         x, slot, s0 = setup(job['paths'], ck, cfg, d, job['locking'], seed, yield_p=job.get('yield_p', 0.2), yield_us=job.get('yield_us', 120), pre=job.get('pre'))
-        scripts = []; exps = []
-        for t in range(nth): S, E = gen_script(ck, x, slot, t, rnd, job['iters'], wl); scripts.append(S); exps.append(E)
+        scripts = []; exps = []; race_handles = []
+        if wl == 'destroy-race':      # complete objects exist before any thread starts: public session objects of the setup session and public token objects
+            for i in range(job['iters'] * 3):
+                lab = 'R%d' % i; rr = x.call('C_CreateObject', s=s0, tmpl=x.T({'CKA_CLASS': ck.CKO_DATA, 'CKA_TOKEN': i % 3 == 0, 'CKA_PRIVATE': False, 'CKA_LABEL': lab.encode(), 'CKA_VALUE': b'r' * 8})); assert rr['rv'] == 0
+                race_handles.append((lab, rr['h']))
+        if wl == 'first-find':
+            for i in range(job['iters'] * 2):
+                lab = 'F%d' % i; rr = x.call('C_CreateObject', s=s0, tmpl=x.T({'CKA_CLASS': ck.CKO_DATA, 'CKA_TOKEN': True, 'CKA_PRIVATE': False, 'CKA_LABEL': lab.encode(), 'CKA_VALUE': b'f' * 8})); assert rr['rv'] == 0
+                race_handles.append((lab, 0))
+            assert x.call('C_Finalize')['rv'] == 0 and x.call('C_Initialize', **x.init_args)['rv'] == 0
+            slot = [sl for sl in x.call('C_GetSlotList', count=8)['slots'] if x.call('C_GetTokenInfo', slot=sl)['flags'] & ck.CKF_TOKEN_INITIALIZED][0]
+            s0 = x.call('C_OpenSession', slot=slot)['h']; assert x.call('C_Login', s=s0, user=1, pin=USER.hex())['rv'] == 0
+        for t in range(nth): S, E = gen_script(ck, x, slot, t, rnd, job['iters'], wl, race_handles); scripts.append(S); exps.append(E)
         t0 = time.time()
         try: r = x.raw({'fn': 'threads', 'scripts': scripts, 'timeout': 600})
         except Died as ex:
@@ -386,6 +429,11 @@ def run(ctx):
                 locking = 'cb' if i % 2 == 0 else 'os'
                 jobs.append(dict(common, kind='stress', cfg='asan', wl=wl, threads=nth, seed=ctx.seed * 1000 + i, iters=ctx.q(25, 40), locking=locking, yield_p=[0.2, 0.03][(i // 2) % 2], yield_us=[120, 8000][(i // 2) % 2],
                                  pre=[None, None, ('null',), ('none',), ('os',), ('null', 'os')][(i + WORKLOADS.index(wl)) % 6]))
+        if wl in ('first-find', 'destroy-race'):      # windows a few instructions wide between two critical sections: callbacks with stalls in every run, and more runs (they are short)
+            for j in jobs:
+                if j.get('wl') == wl: j.update(locking='cb')
+            for i in range(ctx.q(6, 24)):
+                jobs.append(dict(common, kind='stress', cfg='asan', wl=wl, threads=[8, 6, 12][i % 3], seed=ctx.seed * 1000 + 300 + i, iters=ctx.q(25, 40), locking='cb', yield_p=[0.03, 0.5, 0.05][i % 3], yield_us=[8000, 40, 3000][i % 3]))
         for i in range(ctx.q(1, 6)):
             jobs.append(dict(common, kind='stress', cfg='tsan', wl=wl, threads=ctx.q(6, 8), seed=ctx.seed * 1000 + 500 + i, iters=ctx.q(8, 12), locking='cb' if i % 2 == 0 else 'os'))
     for i in range(ctx.q(16, 64)):
